@@ -8,17 +8,24 @@ let chunks_of (spec : string) (src : n list) : n list list =
   go lens src
 
 let both s = s ^ " | " ^ s
+let dec_str = function
+  | DOk o -> "ok " ^ hex_of_bytes o
+  | DTrunc o -> "trunc " ^ hex_of_bytes o
+  | DRej w -> "rej " ^ hex_of_bytes w
+  | DAbort -> "abort"
 
 let () =
   reg "b64.enc" (fun [sp; h] -> both (hex_of_bytes (encode_chunks ectx_init (chunks_of sp (bytes_of_hex h)))));
   reg "b64.raw" (fun [h] -> both (hex_of_bytes (encode_raw (bytes_of_hex h))));
   reg "b64.dec" (fun [sp; h] ->
-      both (match decode_chunks dctx_init (chunks_of sp (bytes_of_hex h)) [] with
-            | DOk o -> "ok " ^ hex_of_bytes o
-            | DTrunc o -> "trunc " ^ hex_of_bytes o
-            | DRej w -> "rej " ^ hex_of_bytes w
-            | DAbort -> "abort"));
+      both (dec_str (decode_chunks dctx_init (chunks_of sp (bytes_of_hex h)) [])));
+  reg "b64.rt" (fun [esp; dsp; h] ->
+      let e = encode_chunks ectx_init (chunks_of esp (bytes_of_hex h)) in
+      both (dec_str (decode_chunks dctx_init (chunks_of dsp e) [])));
   reg "basic" (fun [cs; h] ->
-      match basic_decode (cs = "1") (bytes_of_hex h) with
+      match decodeCleartext (bytes_of_hex h) with
       | None -> "null"
-      | Some (u, p) -> "user=" ^ hex_of_bytes u ^ " pass=" ^ (match p with None -> "null" | Some p -> hex_of_bytes p))
+      | Some ct ->
+        let (u, p) = basic_split (cs = "1") ct in
+        "user=" ^ hex_of_bytes u ^ " pass=" ^ (match p with None -> "null" | Some p -> hex_of_bytes p)
+        ^ " ct=" ^ hex_of_bytes ct)
